@@ -9,7 +9,7 @@ from dataclasses import dataclass, field
 
 ROOT = "/verif"
 WORK = os.path.join(ROOT, ".work")
-EVID = os.path.join(ROOT, "evidence")
+EVID = os.environ.get("VERIF_EVIDENCE_DIR") or os.path.join(ROOT, "evidence")  # (the seed matrix points its runs elsewhere so that they never touch the committed evidence)
 FINDINGS = os.path.join(ROOT, "known_findings.txt")
 
 EXIT_OK, EXIT_VIOLATION, EXIT_INCONCLUSIVE, EXIT_HARNESS = 0, 1, 2, 3
